@@ -117,9 +117,10 @@ CLAIMS = {
         text=("Props/C10.lean about Core/Rle.lean (resumable model of RleBitPackedDecoder::read / read_next, bit_unpack and read_unsigned_vlq over an explicit byte cursor): readN_add and chunked_read - reading "
               "m+n values equals reading m then n, hence any sequence of batch sizes yields the same values and final state (splits mid RLE run, mid bit-packed group, at non-zero bit positions; induction, "
               "unbounded); readN returns exactly n values; a truncated stream is reported, not over-read. Tie: 3000 valid hybrid streams (bit widths 0..32) through the real decoder in random chunk sizes vs the "
-              "encoded values and the model; the 53 Parquet files of /repo/testdata under random (batch_size, partitions) vs batch_size 2048, row counts vs a thrift footer reader, metadata table functions across batch sizes and vs the footer."),
-        note=TB + "no Parquet writer exists offline: file-level coverage is limited to the encodings of the 53 testdata files (PLAIN, dictionary, RLE; v1 pages; single row group); DELTA_*/BYTE_STREAM_SPLIT decoders, "
-             "page/row-group splits and the thrift parser are not modelled; the driver's minimal footer reader is a trusted oracle.",
+              "encoded values and the model; Parquet files written by tools/pqwrite.py (1-5 row groups, 1-N pages per chunk, NULL ratios 0-100%, boundary values) whose every page is decoded by Core/Plain.lean "
+              "(placeLevels_spec, placeLevels_append, decodeFixed_encodeFixed are the theorems about it) and which the engine must read back exactly under random (batch_size, partitions); the 53 Parquet files of /repo/testdata under random (batch_size, partitions) vs batch_size 2048, row counts vs a thrift footer reader, metadata table functions across batch sizes and vs the footer."),
+        note=TB + "tools/pqwrite.py writes PLAIN / uncompressed v1 pages only: dictionary, DELTA_*, BYTE_STREAM_SPLIT and compressed pages are covered only through the 53 testdata files (batch-size metamorphic reads); "
+             "the thrift parser is not modelled; the driver's minimal footer reader is a trusted oracle.",
         technique="Lean proof (batch-split independence of the resumable RLE/bit-packed decoder) + decoder correspondence + batch-size metamorphic reads of real files",
         design="5/C10"),
     "C14": dict(
@@ -159,13 +160,13 @@ CLAIMS = {
         design="5/C18"),
     "C11": dict(
         text=("Props/C11.lean about Core/Scan.lean: queues_partition - for every partition count P >= 1 the per-partition file (row-group) queues `index mod P` together are a permutation of the expanded file list: "
-              "every file is scanned exactly once, none twice (buckets_perm by induction over the list, any element type); prune_conservative - when the model of PrimitiveRowGroupPruner::should_prune answers true for "
+              "every file is scanned exactly once, none twice (buckets_perm by induction over the list, any element type), and the iterator chain the code uses, skip(p).step_by(P), is proved equal to that index-mod-P selection (skipStep_eq_queue); prune_conservative - when the model of PrimitiveRowGroupPruner::should_prune answers true for "
               "statistics that are valid in the comparison type, no row of the chunk satisfies all pushed `col = constant` conjuncts; absent/inexact statistics and NULL constants never prune; the validity "
               "hypothesis on the `as_()` cast cannot be dropped (wrapping-cast witness). Tie: ~900 pushed-down equality scans over every distinct Parquet file of /repo/testdata (constants present / below min / "
               "above max / NULL x projections incl. non-prefix, repeated, reordered, metadata columns, count(*)) vs reading everything and filtering with an unpushable predicate with the optimizer off; file "
               "lists, repeated files and globs of CSV / text / Parquet files of different sizes under 1-16 partitions vs the UNION ALL of single-file scans."),
         note=TB + "no Parquet writer exists offline, so statistics configurations are those of the testdata files (single row group, exact min/max): inexact/absent/unsigned statistics and multi-row-group pruning are "
-             "covered by the theorems only; the assignment model is `index mod P` - its agreement with skip(p).step_by(P) is validated only through the multi-file results; glob matching is not modelled.",
+             "covered by the theorems only; glob matching is not modelled; multi-row-group pruning on generated files with controlled statistics is exercised by the `pruning` component where built, otherwise by the theorems only.",
         technique="Lean 4 proof (queues are a partition of the file list for every P; pruning is conservative) + pushed-vs-unpushed and list-vs-union differential scans",
         design="5/C11"),
     "C19": dict(
